@@ -16,7 +16,7 @@ from pathlib import Path
 VERIF = Path(__file__).resolve().parents[1]
 GEN_MODULES = ['GProofs.C01Gen', 'GProofs.C02Gen', 'GProofs.C04Gen', 'GProofs.C05Gen', 'GProofs.C06Gen', 'GProofs.C08Gen', 'GProofs.C09Gen', 'GProofs.C10',
                'GProofs.C10Gen', 'GProofs.C11Gen', 'GProofs.C12Gen', 'GProofs.C12Win', 'GProofs.C14Gen', 'GProofs.C16', 'GProofs.C17Gen', 'GProofs.C18Gen',
-               'GProofs.C19Gen']
+               'GProofs.C19Gen', 'GProofs.C20Gen']
 
 
 def sh(cmd, cwd=None):
